@@ -28,7 +28,13 @@ Table ==
     \* family "fill": besides the table, the operations fill(n) / churn(n) write n fresh small objects
     \* whose keys share one index bucket (churn removes each again); 21 entries = one page of the
     \* bucket's update log, so 22 and 43 cross one and two page boundaries (11 pairs = 22 log entries)
+    \* The bucket is the one of table payload a, so "write a; remove a; fill; write a" leaves a's
+    \* tombstone and a's new entry in different pages of the same log.  "fill1": the smaller alphabet.
     [] Family = "fill"    -> << <<"a", "plain", 100>>, <<"x", "plain", 40>> >>
+    [] Family = "fill1"   -> << <<"a", "plain", 100>>, <<"x", "plain", 40>> >>
+    \* family "par": par(t, m) = t threads store m fresh objects each at the same time; for the
+    \* specification that is t*m successful writes in some order, and no order matters
+    [] Family = "par"     -> << <<"a", "plain", 100>>, <<"x", "plain", 40>> >>
 
 Names    == {Table[i][1] : i \in 1..Len(Table)}
 Never    == Table[Len(Table)][1]
@@ -41,11 +47,13 @@ Desc(p) == LET cls == Row(p)[2]  n == Row(p)[3] IN
    blte30 |-> cls \in {"blte30", "hdrnested"} /\ n >= 34]
 \* objects created by fill / churn: f1, f2, ... in order of creation (the driver picks concrete
 \* 16..28-byte objects by bucket; the model only needs that they are fresh, small and plain)
-FillNs   == IF Family = "fill" THEN {22, 43} ELSE {}
-ChurnNs  == IF Family = "fill" /\ Comp = "dyn" THEN {11} ELSE {}
-Bucket   == 5
+FillFam  == Family \in {"fill", "fill1", "par"}
+FillNs   == IF Family = "fill" THEN {22, 43} ELSE IF Family = "fill1" THEN {22} ELSE {}
+ChurnNs  == IF Family \in {"fill", "fill1"} /\ Comp = "dyn" THEN {11} ELSE {}
+ParTMs   == IF Family = "par" /\ Comp # "arch" THEN {<<4, 3>>} ELSE {}
+BucketOf == "a"
 FName(i) == "f" \o ToString(i)
-FillAll  == IF Family = "fill" THEN {FName(i) : i \in 1..(43 * (D + 1))} ELSE {}
+FillAll  == IF FillFam THEN {FName(i) : i \in 1..(43 * (D + 1))} ELSE {}
 FillDesc == [len |-> 20, blte0 |-> FALSE, blte30 |-> FALSE]
 AllNames == Names \cup FillAll
 DescOf == [p \in AllNames |-> IF p \in Names THEN Desc(p) ELSE FillDesc]
@@ -69,8 +77,9 @@ FillC(cc, k, n, rm) ==     \* n appends (each followed by a remove if rm) of f(k
 Ops ==
   {[op |-> "write", p |-> p] : p \in Writable} \cup
   {[op |-> "read", p |-> p] : p \in (Written \cap Names) \cup {Never}} \cup
-  {[op |-> "fill", n |-> n, bucket |-> Bucket] : n \in FillNs} \cup
-  {[op |-> "churn", n |-> n, bucket |-> Bucket] : n \in ChurnNs} \cup
+  {[op |-> "fill", n |-> n, of |-> BucketOf] : n \in FillNs} \cup
+  {[op |-> "churn", n |-> n, of |-> BucketOf] : n \in ChurnNs} \cup
+  {[op |-> "par", t |-> tm[1], m |-> tm[2]] : tm \in ParTMs} \cup
   (IF Comp = "dyn" THEN {[op |-> "remove", p |-> p] : p \in Written \cap Names} \cup {[op |-> "flush"]} ELSE {}) \cup
   (IF Comp = "arch" THEN {[op |-> "compact"]} ELSE {}) \cup
   {[op |-> "reopen"]}
@@ -84,6 +93,9 @@ Do(e) ==
     [] e.op = "fill"   -> LET new == {FName(i) : i \in (NF + 1)..(NF + e.n)} IN
                           /\ a' = [live |-> a.live \cup new, maybe |-> a.maybe \ new]
                           /\ c' = FillC(c, NF, e.n, FALSE)
+    [] e.op = "par"    -> LET new == {FName(i) : i \in (NF + 1)..(NF + e.t * e.m)} IN
+                          /\ a' = [live |-> a.live \cup new, maybe |-> a.maybe \ new]
+                          /\ c' = FillC(c, NF, e.t * e.m, FALSE)
     [] e.op = "churn"  -> LET new == {FName(i) : i \in (NF + 1)..(NF + e.n)} IN
                           /\ a' = [live |-> a.live \ new, maybe |-> a.maybe \cup new]
                           /\ c' = FillC(c, NF, e.n, TRUE)
